@@ -74,4 +74,30 @@ mod verif_reader {
         assert!(r4.check_utf8_final().is_ok());
         assert!(r4.next_invalid_utf8() == usize::MAX);
     }
+
+    /// Position::from_index against the definition of line/column (1 + newlines before the offset; bytes since
+    /// the last newline), as a black-box contract: independent of how the body is written, so it also decides
+    /// rewrites of the function that leave the Verus subset. Bounded stand-in: inputs of <= 6 bytes, every offset.
+    #[kani::proof]
+    #[kani::unwind(9)]
+    fn position_from_index_contract() {
+        let buf: [u8; 6] = kani::any();
+        let len: usize = kani::any();
+        kani::assume(len <= 6);
+        let i: usize = kani::any();
+        kani::assume(i <= 8);
+        let p = Position::from_index(i, &buf[..len]);
+        let end = if i < len { i } else { len };
+        let (mut line, mut col) = (1usize, 0usize);
+        let mut k = 0;
+        while k < 6 {
+            if k < end {
+                if buf[k] == b'\n' { line += 1; col = 0; } else { col += 1; }
+            }
+            k += 1;
+        }
+        assert!(p.line == line);
+        assert!(p.column == col);
+        kani::cover!(line == 3 && col == 1);
+    }
 }
